@@ -96,13 +96,13 @@ def map_writer_loops(rec, keymap=None):
                 key, ek = rows[member][1], rows[member][2][6:]
             i = info['counter']
             out[k] = '''
-  __CPROVER_assigns(%(i)s, written, g_bytes, kt_left, kt_depth, kt_isval, g_ekind, g_eval, g_eseen, g_exc, %(seq)s.cur)
+  __CPROVER_assigns(%(i)s, written, g_bytes, kt_left, kt_depth, kt_isval, g_ekind, g_eval, g_eseen, g_exc, %(cur)s)
   __CPROVER_loop_invariant(%(i)s <= %(seq)s.n && g_exc == 0 && written == g_bytes)
   __CPROVER_loop_invariant(%(i)s < %(seq)s.n ? (kt_depth == 2 && kt_left == %(seq)s.n - %(i)s) : (kt_depth == 1 && !kt_isval))
   __CPROVER_loop_invariant((g_K == %(key)d && g_Ei < %(i)s && g_Ei == %(seq)s.wi) ==> (%(ec)s))
   __CPROVER_loop_invariant(g_K != %(key)d ==> (g_eseen == __CPROVER_loop_entry(g_eseen) && g_ekind == __CPROVER_loop_entry(g_ekind) && g_eval == __CPROVER_loop_entry(g_eval)))
   __CPROVER_decreases(%(seq)s.n - %(i)s)
-''' % {'i': i, 'seq': seq, 'key': key, 'ec': elem_clause(ek, seq)}
+''' % {'i': i, 'seq': seq, 'key': key, 'ec': elem_clause(ek, seq), 'cur': info['m'] + '__cur'}
         return out
     return gen
 
@@ -129,7 +129,7 @@ def map_writer_contract(rec, strict_empty=True, empty_ok=False):
             elif cls in ('vec', 'deq'):
                 p = '1' if mand else '(%s.n != 0)' % lv
                 v = lv
-                c += '__CPROVER_assigns(%s.cur)\n' % lv     # scratch element of the abstract sequence
+                c += '__CPROVER_assigns(seq_%s__cur)\n' % L.types.mangle(t.args[0])     # scratch element of the abstract sequence
             else:
                 # a plain member: always written
                 p = '1'
@@ -176,7 +176,7 @@ W('FilePreamble', loops=map_writer_loops('FilePreamble'), props=('C10', 'C02', '
   setup_extra='  __CPROVER_assume(obj.m_block_parameters.n < (1UL << 60));\n')
 
 # ---------------------------------------------------------------- array / leaf writers
-AWREQ = WREQ.replace('kt_over)', 'kt_over, $this->list.cur)')
+AWREQ = WREQ.replace('kt_over)', 'kt_over, seq_u32__cur)')
 TS_W = WREQ + '''
 __CPROVER_ensures(KT_ARRAY_DONE && kt_topn == 2)
 __CPROVER_ensures(g_Ei == 0 ==> (g_eseen && g_ekind == K_UINT && g_eval == $this->m_secs))
@@ -197,7 +197,7 @@ __CPROVER_ensures(KT_ARRAY_DONE && kt_topn == $this->list.n)
 __CPROVER_ensures((g_Ei < $this->list.n && g_Ei == $this->list.wi) ==> (g_eseen && g_ekind == K_UINT && g_eval == (unsigned long)$this->list.wv))
 '''
 ILI_LOOP = '''
-  __CPROVER_assigns($L2, $L1, g_bytes, kt_left, g_ekind, g_eval, g_eseen, g_exc, $this->list.cur)
+  __CPROVER_assigns($L2, $L1, g_bytes, kt_left, g_ekind, g_eval, g_eseen, g_exc, seq_u32__cur)
   __CPROVER_loop_invariant($L2 <= $this->list.n && g_exc == 0 && $L1 == g_bytes)
   __CPROVER_loop_invariant(kt_depth == 1 && !kt_topmap && kt_left == $this->list.n - $L2 && !kt_over && !g_keybad && kt_n == $this->list.n)
   __CPROVER_loop_invariant((g_Ei < $L2 && g_Ei == $this->list.wi) ==> (g_eseen && g_ekind == K_UINT && g_eval == (unsigned long)$this->list.wv))
